@@ -123,11 +123,27 @@ def build_frame(case, columns):
     cols = {}
     for name in columns:
         vals = decs(case["X"][name])
-        if case["types"][name] == "quant":
+        if case["types"][name] == "quant_int":
+            cols[name] = np.array(vals, dtype="int64")
+        elif case["types"][name] == "quant":
             cols[name] = np.array(vals, dtype=float)
         else:
             cols[name] = pd.Series(vals, dtype=object)
     return pd.DataFrame(cols)
+
+
+def reindex(X, y, kind):
+    """the same rows under a non-default row index (outputs are compared row by row, by position)"""
+    if not kind:
+        return X, y
+    n = len(X)
+    idx = [f"r{(i * 7919) % n:05d}_{i}" for i in range(n)] if kind == "strings" else [(i * 7919 + 13) % (3 * n + 1) + 5 * n for i in range(n)]
+    X = X.copy()
+    X.index = idx
+    if y is not None:
+        y = y.copy()
+        y.index = idx
+    return X, y
 
 
 def main():
@@ -138,12 +154,11 @@ def main():
     from AutoCarver import BinaryCarver, ContinuousCarver
     from AutoCarver.discretizers import Discretizer
     feats = cfg["features"]
-    quant = [f for f in feats if case["types"][f] == "quant"]
+    quant = [f for f in feats if case["types"][f] in ("quant", "quant_int")]
     categ = [f for f in feats if case["types"][f] == "categ"]
     ordi = [f for f in feats if case["types"][f] == "ordinal"]
     vo = {f: decs(case["orders"][f]) for f in ordi}
-    X = build_frame(case, cfg["columns"])
-    y = pd.Series(case["y"])
+    X, y = reindex(build_frame(case, cfg["columns"]), pd.Series(case["y"]), cfg.get("index"))
     n_jobs = cfg.get("n_jobs", 1)
     out = {"arrivals": ARRIVALS}
     sys_stdout = sys.stdout
@@ -164,7 +179,7 @@ def main():
                                    max_n_mod=case["max_n_mod"], dropna=case["dropna"],
                                    output_dtype=case["output_dtype"], copy=True, n_jobs=n_jobs)
         obj.fit(X, y)
-        Xt = obj.transform(build_frame(case, cfg["columns"]))
+        Xt = obj.transform(reindex(build_frame(case, cfg["columns"]), None, cfg.get("index"))[0])
         out["fit"] = "ok"
         out["features"] = sorted(obj.features)
         per = {}
@@ -178,11 +193,11 @@ def main():
         # probe frame: unseen values are injected into the qualitative features that have a default
         # group; the injected values are KNOWN modalities of the other qualitative columns
         Xp = build_frame(case, cfg["columns"])
-        vocab = sorted({v for n_, t in case["types"].items() if t != "quant"
+        vocab = sorted({v for n_, t in case["types"].items() if t not in ("quant", "quant_int")
                         for v in decs(case["X"][n_]) if isinstance(v, str)})
         injected = []
         for f in sorted(obj.features):
-            if case["types"][f] == "quant" or not vocab:
+            if case["types"][f] in ("quant", "quant_int") or not vocab:
                 continue
             g = obj.values_orders[f]
             if obj.str_default in g.values():
